@@ -12,7 +12,7 @@ use serde_json::json;
 const RULE: &str = "cases = (function group, input bytes / constructed UTF-8 string / element type and length, indices from the edge index set incl. usize::MAX, pattern of each kind); oracle = post-conditions only: every non-empty returned &[T]/&mut [T]/&str lies inside the argument's address range (for ZSTs: len <= arg len), every returned &str is valid UTF-8 and starts/ends on char boundaries of the argument, every returned char is a Unicode scalar value, and the only panics are the documented ones (clamping str functions on an in-range non-boundary index; chunk size 0); under Miri the same calls are additionally checked for UB; non-trivial = index within 1 of len, beyond len or >= isize::MAX, or a multi-byte char adjacent to the cut, or a ZST / Drop element type; distinct by the whole case";
 
 #[derive(Serialize, Deserialize, Debug, Clone, Hash)]
-enum Case {
+pub enum Case {
     /// generic slice functions; elem 0 u8, 1 u64, 2 (), 3 String, 4 [u8;3]
     Slice { elem: u8, len: usize, a: usize, b: usize },
     /// byte-pattern functions on arbitrary bytes
@@ -515,7 +515,7 @@ fn misc_fns(n: usize) -> Result<(), String> {
     Ok(())
 }
 
-fn run_case(c: &Case) -> Result<(), String> {
+pub fn run_case(c: &Case) -> Result<(), String> {
     match c {
         Case::Slice { elem, len, a, b } => match elem {
             0 => slice_fns::<u8>(*len, *a, *b),
@@ -646,7 +646,7 @@ fn explore(ctx: &mut Ctx, miri: bool) {
     });
 }
 
-fn fold_case(s: &[char], p: &[char], a: (u8, usize), b: (u8, usize), hist: u32) -> (Case, Case) {
+pub fn fold_case(s: &[char], p: &[char], a: (u8, usize), b: (u8, usize), hist: u32) -> (Case, Case) {
     let s: String = s.iter().collect();
     let pat: String = p.iter().collect();
     let f = |(sel, raw): (u8, usize)| if sel < 2 { raw % (s.len() + 3) } else { raw };
